@@ -144,11 +144,11 @@ class C15(Check):
     components_stubbed = ['none of PyRates; pathlib.Path.open is patched to fail on the k-th write in fault runs']
     assumptions = ['restart = clear_frontend_caches() in the saving process + a pristine observer process that loads the file',
                    'expected derived equations are produced by a regex tokenizer (whole identifiers)']
-    required_probes = {'thorough': ['gen>=3', 'yaml_io', 'torn', 'inherit', 'dual', 'hier']}
+    required_probes = {'thorough': ['gen>=3', 'yaml_io', 'torn', 'inherit', 'dual', 'hier', 'overwrote_longer_file', 'same_size_rewrite']}
 
     def strata(self, tier):
         return [('S-flat', 3), ('S-hier', 2), ('S-overrides', 1), ('S-fault', 2), ('S-inherit', 3), ('S-dual', 2),
-                ('S-nodes', 2), ('S-restart', 2)]
+                ('S-nodes', 2), ('S-restart', 2), ('S-samepath', 2)]
 
     def generate(self, rng, stratum, tier):
         if stratum == 'S-inherit':
@@ -181,6 +181,13 @@ class C15(Check):
         fault = None
         if stratum == 'S-fault':
             fault = {'at_gen': rng.randint(1, gens), 'errno': rng.choice(['ENOSPC', 'EIO', 'EACCES']), 'short': rng.random() < 0.5}
+            if rng.random() < 0.6:
+                # a LOAD that fails half-way (I/O error at the k-th file read, or an interruption at the n-th pyrates call),
+                # then the same load again: it must succeed and give the stored model
+                fault['read'] = {'at_gen': rng.randint(1, gens), 'kind': rng.choice(['oserror', 'oserror', 'interrupt']),
+                                 'nth': rng.choice([1, 1, 2, 2, 3, 4, 6]), 'n_call': rng.randint(1, 150)}
+                if rng.random() < 0.5:
+                    fault['at_gen'] = 0          # only the load fails in this run
         restart = None
         if stratum == 'S-restart':
             # the loaded (path-cached) template is modified in place, then the process is "restarted" with
@@ -190,7 +197,24 @@ class C15(Check):
             rv = rng.choice(models.LIB[ri['lib']]['const'] + models.LIB[ri['lib']]['state'])
             restart = {'how': rng.choice(['clear_model', 'clear_model', 'clear_frontend_caches']),
                        'mutate': {f'{rn}/{ro}/{rv}': rng.randint(1, 60) / 16}}
-        return {'mode': 'store', 'spec': spec, 'gens': gens, 'fault': fault, 'restart': restart}
+        samepath = None
+        if stratum == 'S-samepath':
+            # every generation is written to ONE path.  Before the first save the path holds a LONGER file (another,
+            # bigger model saved and loaded earlier); between generations one constant is replaced by a value whose text
+            # has the same length, the file is written again (same size, same second), the caches are cleared and the
+            # path is loaded again: the store is what counts, not what was there or parsed before
+            net = models.RefNet(spec)
+            cands = []
+            for (rn, ro), ri in sorted(net.inst.items()):
+                for rv in models.LIB[ri['lib']]['const']:
+                    cands.append(f'{rn}/{ro}/{rv}')
+            decoy = models.gen_net(rng, n_nodes=rng.randint(6, 8), per_node_ops=True, libs=('lin', 'sat', 'osc', 'leak'), build='python')
+            for e in _all_edges(decoy):
+                e[2] = {k: v for k, v in e[2].items() if v is not None}
+            samepath = {'decoy': decoy if rng.random() < 0.7 else None, 'load_decoy': rng.random() < 0.5,
+                        'rewrites': [[rng.choice(cands), rng.choice([1.5, 2.5, 3.5, 0.5, 1.25, 2.25, 3.25, 0.25, 2.75, 1.75])]
+                                     for _ in range(rng.randint(0, 2))] if cands else []}
+        return {'mode': 'store', 'spec': spec, 'gens': gens, 'fault': fault, 'restart': restart, 'samepath': samepath}
 
     # ---------------------------------------------------------------------------------------------------
     def execute(self, trace):
@@ -345,6 +369,91 @@ class C15(Check):
         jobs = []      # (label, observer index)
         n_obs = 1
         cur = T
+        sp = trace.get('samepath')
+        if sp:
+            # ---------------------------------------------------------------- one path, overwritten again and again
+            bump('samepath')
+            path = 'model.yaml'
+            try:
+                if sp.get('decoy'):
+                    D = models.build(sp['decoy'], fname='m_decoy')
+                    D.to_yaml(path)
+                    bump('decoy_saved')
+                    if sp.get('load_decoy'):
+                        CircuitTemplate.from_yaml(f'model/{sp["decoy"]["name"]}')
+                    dec_size = os.path.getsize(path)
+                else:
+                    dec_size = 0
+                T.to_yaml(path)
+                if dec_size > os.path.getsize(path):
+                    bump('overwrote_longer_file')
+            except Exception as e:
+                obsv.abort()
+                res['discard'] = f'setup of the same-path history failed: {type(e).__name__}: {str(e)[:80]}'
+                return res
+            jobs = []
+            applied = {}
+
+            def expected():
+                E = models.build(spec, fname=f'm_E{len(jobs)}')
+                if applied:
+                    E.update_var(node_vars=dict(applied))
+                return snapshot(E)
+            try:
+                clear_frontend_caches()
+                cur = CircuitTemplate.from_yaml(f'model/{name}')
+            except Exception as e:
+                obsv.collect()
+                V('L-recover', 'loud', type(e).__name__, f'loading the model saved over a longer file at the same path raised '
+                                                         f'{type(e).__name__}: {str(e)[:200]}')
+                return res
+            obsv.submit(snapshot(cur), 'obs_both'); jobs.append('loaded after overwriting')
+            import shutil
+            shutil.copy(path, 'model_snap0.yaml')      # the observer works asynchronously: it gets the file as it is NOW
+            obsv.submit(None, 'obs_yaml', path=os.path.join(cwd, f'model_snap0/{name}')); jobs.append('pristine process, after overwriting')
+            for key, val in sp.get('rewrites', []):
+                try:
+                    size0 = os.path.getsize(path)
+                    cur.update_var(node_vars={key: val})
+                    cur.to_yaml(path)
+                    applied[key] = val
+                    if os.path.getsize(path) == size0:
+                        bump('same_size_rewrite')
+                    clear_frontend_caches()
+                    cur = CircuitTemplate.from_yaml(f'model/{name}')
+                except Exception as e:
+                    obsv.collect()
+                    V('L-recover', 'loud', type(e).__name__, f're-saving to the same path and loading raised {type(e).__name__}: {str(e)[:200]}')
+                    return res
+                obsv.submit(snapshot(cur), 'obs_both')
+                obsv.submit(expected(), 'obs_both')
+                jobs.append(('rewrite', key, val))
+            snaps = obsv.collect()
+            base = snaps[0]
+            if base['scalar'].get('status') != 'ok':
+                res['discard'] = f"model refused: {base['scalar'].get('exc')}: {str(base['scalar'].get('msg'))[:60]}"
+                return res
+            i = 1
+            for j in jobs:
+                if isinstance(j, str):
+                    d = observe.diff(snaps[i], base, rtol=1e-12)
+                    i += 1
+                    if d:
+                        loud = snaps[i - 1]['scalar'].get('status') != 'ok'
+                        V('L-recover', 'loud' if loud else 'silent', 'overwrite',
+                          f'model saved over a {"longer " if P.get("overwrote_longer_file") else ""}file at the same path ({j}) differs from the original: {d[:300]}')
+                        return res
+                else:
+                    d = observe.diff(snaps[i], snaps[i + 1], rtol=1e-12)
+                    i += 2
+                    if d:
+                        V('L-recover', 'silent', 'rewrite-same-path',
+                          f'after {j[1]}={j[2]} was set, saved to the same path, caches cleared and the path loaded again, the '
+                          f'model differs from the saved one: {d[:300]}')
+                        return res
+            res['nontrivial'] = True
+            res['stats'] = {'generations': len(jobs)}
+            return res
         for g in range(1, trace['gens'] + 1):
             path = f'gen{g}.yaml'
             if fault and fault['at_gen'] == g:
@@ -389,6 +498,37 @@ class C15(Check):
             obsv.submit(None, 'obs_yaml', path=os.path.join(cwd, f'gen{g}/{name}'))   # restart: pristine process loads the file
             jobs.append(g)
             clear_frontend_caches()                                                     # restart of this process' caches
+            rf = (fault or {}).get('read')
+            if rf and rf['at_gen'] == g:
+                from sim.faults import YamlReadFault, InterruptAt
+                from sim.spies import Interrupt
+                res['faults_cfg']['load_' + rf['kind']] = 1
+                try:
+                    if rf['kind'] == 'oserror':
+                        with YamlReadFault(rf['nth']) as yr:
+                            CircuitTemplate.from_yaml(f'gen{g}/{name}')
+                        if yr.fired:
+                            V('L-torn', 'silent', 'read-error-swallowed', f'injected read error while loading generation {g} was swallowed')
+                            break
+                    else:
+                        with InterruptAt(rf['n_call']) as ia:
+                            CircuitTemplate.from_yaml(f'gen{g}/{name}')
+                except (OSError, Interrupt):
+                    res['faults']['load_' + rf['kind']] = 1
+                    bump('load_failed_then_retried')
+                    try:
+                        again = CircuitTemplate.from_yaml(f'gen{g}/{name}')
+                    except Exception as e:
+                        V('L-recover', 'loud', type(e).__name__, f'loading generation {g} again after a load that failed half-way '
+                                                                 f'({rf["kind"]}) raised {type(e).__name__}: {str(e)[:200]}')
+                        break
+                    obsv.submit(snapshot(again), 'obs_both')
+                    jobs.append(g)
+                    clear_frontend_caches()
+                except Exception as e:
+                    V('L-recover', 'loud', type(e).__name__, f'load of generation {g} under an injected read fault raised '
+                                                             f'{type(e).__name__} instead of the I/O error: {str(e)[:200]}')
+                    break
             try:
                 cur = CircuitTemplate.from_yaml(f'gen{g}/{name}')
             except Exception as e:
